@@ -274,7 +274,10 @@ def report(prop, a, seed, results, wall):
         os.makedirs(os.path.join(core.ROOT, "coverage"), exist_ok=True)
         ex = sorted({f"{os.path.relpath(f, '/repo')}:{ln}:{nm}" for r in results for f, ln, nm in r.get("executed", [])})
         ou = sorted({f"{os.path.relpath(f, '/repo')}:{ln}:{qn}:{par}" for r in results for f, ln, qn, par in r.get("options_used", [])})
-        json.dump({"property_id": prop, "tier": a.tier, "functions_executed_in_symbolic_runs": ex, "optional_parameters_given_a_non_default_value": ou}, open(os.path.join(core.ROOT, "coverage", f"{prop}.executed.json"), "w"), indent=1)
+        byc = {}
+        for r in results:
+            byc.setdefault(f"{r['prop']}/{r['contract']}", set()).update(f"{os.path.relpath(f, '/repo')}:{ln}:{nm}" for f, ln, nm in r.get("executed", []))
+        json.dump({"property_id": prop, "tier": a.tier, "functions_executed_in_symbolic_runs": ex, "optional_parameters_given_a_non_default_value": ou, "functions_executed_by_contract": {k: sorted(v) for k, v in sorted(byc.items())}}, open(os.path.join(core.ROOT, "coverage", f"{prop}.executed.json"), "w"), indent=1)
     if not a.no_evidence and not a.only:
         write_evidence(prop, a, seed, results, obl, discharged, total, known_hit, new_viol, wall, code, ledger_msgs)
     for ln in lines:
